@@ -21,7 +21,7 @@ import time
 from .. import bounded, common, spec
 from ..common import PROVED, REFUTED, Report, res, run_pool
 
-HEADER = "from qlasskit import qlassf, Parameter, Qint, Qint2, Qint4, Qfixed, Qchar, Qlist\nfrom typing import Tuple\n\n"
+HEADER = "from qlasskit import qlassf, qlassfa, Parameter, Qint, Qint2, Qint4, Qfixed, Qchar, Qlist\nfrom typing import Tuple\n\n"
 
 FUNCS = {
     "and2": "@qlassf\ndef and2(a: bool, b: bool) -> bool:\n    return a and b\n",
@@ -38,11 +38,14 @@ FUNCS = {
     "eq3": "@qlassf\ndef eq3(a: Qint[2]) -> bool:\n    return a == 3\n",
     # functions that are NOT decorated definitions of the script: built from a source string, and obtained by binding a parameter
     "fromstr": "fromstr = qlassf('def fromstr(a: bool, b: bool) -> bool:\\n    return a and not b')\n",
+    # functions the script did NOT compile (the tool has to)
+    "nocompile": "nocompile = qlassf('def nocompile(a: bool, b: bool) -> bool:\\n    return a ^ b', to_compile=False)\n",
+    "nocompile2": "@qlassfa(to_compile=False)\ndef nocompile2(a: bool, b: bool, c: bool) -> bool:\n    return (a and b) or c\n",
     "bound": "_unbound = qlassf('def bound(c: Parameter[bool], a: bool, b: bool) -> bool:\\n    return (a or b) and c')\nbound = _unbound.bind(c=True)\n",
 }
 
 SCRIPTS = [["and2"], ["or3"], ["lit"], ["nlit"], ["const"], ["xor3"], ["maj"], ["shared"], ["gt"], ["pair"], ["add"], ["eq3"],
-           ["lit", "maj"], ["xor3", "and2", "gt"], ["pair", "nlit"], ["fromstr"], ["bound"], ["fromstr", "and2"]]
+           ["lit", "maj"], ["xor3", "and2", "gt"], ["pair", "nlit"], ["fromstr"], ["bound"], ["fromstr", "and2"], ["nocompile"], ["nocompile2"]]
 # how the script reaches the tool / where the output goes (the statement speaks of scripts, not of file names)
 IO_MODES = [("stdin", "stdout"), ("script.py", "stdout"), ("script.txt", "stdout"), ("noextension", "stdout"), ("dir.v2/my-script.py", "out.txt"), ("stdin", "out.txt")]
 FORMS = [None, "anf", "cnf", "dnf", "nnf"]
